@@ -181,6 +181,8 @@ def show(t, depth=0, maxdepth=12) -> str:
         return f"elem({s(a[0])})"
     if op == "assume":
         return s(a[1])
+    if op == "vattr":
+        return f"{s(a[0])}.{a[1]}@{len(a[2])}"
     if op == "upd":
         return f"upd({s(a[0])}, {s(a[1])}, {s(a[2])})"
     return f"{op}(" + ", ".join(s(x) for x in a) + ")"
@@ -398,6 +400,11 @@ WRAPPER_ALIASES = {
 }
 
 
+# autograd protocol: `.grad` is rewritten by these calls, so a read of `.grad` is keyed by the calls seen so far
+VOLATILE_ATTRS = {"grad"}
+EFFECT_METHODS = {"backward", "zero_grad", "step"}
+
+
 class Evaluator:
     """Abstract term builder (see module docstring)."""
 
@@ -416,6 +423,7 @@ class Evaluator:
         self.closures: dict = {}  # term -> (FunctionInfo|ast.Lambda, captured State, cls_ctx, self_term, fi)
         self.unresolved_calls = 0
         self.resolved_calls = 0
+        self._effects: tuple = ()  # results of state-changing opaque calls seen so far (autograd protocol)
 
     # ---------------------------------------------------------------- public API
     def run(self, func_fq: str, cls_ctx: str | None = None, args: dict | None = None, heap=None) -> Result:
@@ -424,6 +432,7 @@ class Evaluator:
             cls_ctx = fi.cls
         self.events = []
         self._seq = 0
+        self._effects = ()
         st = State({}, dict(heap or {}), ())
         params = {}
         a = fi.node.args
@@ -937,6 +946,9 @@ class Evaluator:
                         return mk("classattr", c, attr)
         if obj is self_term or obj.op == "param":
             self._emit("read", node, st, obj=obj, attr=attr)
+        if attr in VOLATILE_ATTRS:
+            # value depends on the state-changing calls made so far (x.grad after backward / zero_grad)
+            return mk("vattr", obj, attr, self._effects)
         return mk("attr", obj, attr)
 
     def _class_of(self, obj: T):
@@ -1261,6 +1273,8 @@ class Evaluator:
             return res
         self.unresolved_calls += 1
         res = mk("call", fterm, tuple(args), tuple(kwargs))
+        if fterm.op == "attr" and fterm.args[1] in EFFECT_METHODS:
+            self._effects = self._effects + (res,)
         self._emit("call", node, st, callee=_callee_name(fterm), fterm=fterm, args=tuple(args), kwargs=tuple(kwargs),
                    recv=recv, inlined=False, resolved=False, result=res)
         return res
